@@ -9,6 +9,8 @@
 (* keep their content), its = cursors by iterator id.                          *)
 (* Every operation event carries ok (1 = returned, 0 = panicked): a panic of   *)
 (* the real code on a valid input is not explained by any action.              *)
+(* Node sizes are observed directly (Nodes events, TrNodes): every stored node *)
+(* of a bulk-built or merged version is at most MaxNodeSize bytes.             *)
 EXTENDS TraceBase, OrdMapOps
 
 VARIABLES l, K, PG, SF, vers, its
@@ -141,10 +143,30 @@ TrFrac ==
     /\ 0 <= Ev.ppm /\ Ev.ppm <= 1000000
     /\ UNCHANGED <<K, PG, SF, vers, its>>
 
+\* size invariants, observed on the stored nodes themselves: after a bulk build (op = "build") and
+\* after MergeAndSave (op = "merge") the driver walks every node of the new version in the stor
+\* bytes: n nodes, the largest is maxsz bytes, the largest fan-out (keys of a leaf, children of a
+\* tree node) is maxfan, the leaves hold nk keys. Every node respects the size limit (btree
+\* maxNodeSize) and the fan-out limit (splitCount = the scenario's split; BTreeNodes!NodeOK), and
+\* the walk saw exactly the keys of the version (it is the same tree the other events observe).
+\* nover / big describe the nodes above the limit for the classification of known findings only.
+MaxNodeSize == 8192
+TrNodes ==
+    /\ IsEvent("Nodes")
+    /\ Ev.ok = 1
+    /\ Ev.v \in 1..Len(vers)
+    /\ Ev.op \in {"build", "merge"}
+    /\ Holds(/\ Ev.n >= 1
+             /\ Ev.maxsz <= MaxNodeSize
+             /\ Ev.maxfan <= Ev.split
+             /\ Ev.nover = 0
+             /\ Ev.nk = Count(vers[Ev.v]))
+    /\ UNCHANGED <<K, PG, SF, vers, its>>
+
 \* informational lines (scenario descriptions, skipped scenarios)
 TrNote == /\ IsEvent("Note") /\ UNCHANGED <<K, PG, SF, vers, its>>
 
-TraceNext == TrReset \/ TrScn \/ TrBuild \/ TrMerge \/ TrReopen \/ TrState \/ TrChkKeys \/ TrItNew \/ TrItOp
+TraceNext == TrReset \/ TrScn \/ TrBuild \/ TrMerge \/ TrReopen \/ TrNodes \/ TrState \/ TrChkKeys \/ TrItNew \/ TrItOp
              \/ TrFrac \/ TrNote
 
 TraceSpec == TraceInit /\ [][TraceNext]_tvars
